@@ -103,6 +103,57 @@ class RunResult:
             json.dumps(self.log, sort_keys=True, ensure_ascii=True, default=str).encode()).hexdigest()
 
 
+class RunStuck(BaseException):
+    """Raised by the per-run alarm inside whatever code is executing (BaseException: no `except Exception`
+    of the harness or the library swallows it)."""
+
+
+STUCK_AFTER_S = float(os.environ.get('VERIF_STUCK_AFTER_S', '60'))
+
+
+def stuck_guard(fn):
+    """Wraps an engine's _execute: a run that makes no progress for STUCK_AFTER_S seconds of wall time is
+    interrupted.  If the interrupted frame is library code the run ends with the verdict `no_progress`
+    for the running property (a loop that never ends is observable misbehaviour of any operation); if it
+    is harness code it is a harness error.  Ordinary runs take milliseconds."""
+    import functools
+    import signal
+
+    @functools.wraps(fn)
+    def wrapper(self, trace, prop, *a, **kw):
+        def on_alarm(signum, frame):
+            raise RunStuck()
+        try:
+            old = signal.signal(signal.SIGALRM, on_alarm)
+        except ValueError:          # not the main thread: no guard
+            return fn(self, trace, prop, *a, **kw)
+        signal.setitimer(signal.ITIMER_REAL, STUCK_AFTER_S)
+        try:
+            return fn(self, trace, prop, *a, **kw)
+        except RunStuck as e:
+            signal.setitimer(signal.ITIMER_REAL, 0)
+            repo = os.path.realpath(REPO_DIR)
+            here = os.path.realpath(VERIF_DIR)
+            # the innermost frame that belongs to the library or to the harness (frames of the standard
+            # library and of lark called from either do not count)
+            frames = [f for f in traceback.extract_tb(e.__traceback__) if f.name != 'on_alarm' and os.path.isabs(f.filename)
+                      and os.path.realpath(f.filename).startswith((repo + os.sep, here + os.sep))]
+            inner = frames[-1] if frames else None
+            if inner is not None and os.path.realpath(inner.filename).startswith(repo + os.sep):
+                n = len(trace.get('ops', []))
+                v = Violation(prop, 'no_progress', max(n - 1, 0),
+                              f'operation {n} did not finish within {STUCK_AFTER_S:.0f} s: still inside {inner.name} '
+                              f'({os.path.basename(inner.filename)}:{inner.lineno})')
+                return RunResult(trace=trace, violations=[v], stats=collections.Counter({'no_progress': 1}),
+                                 log=[{'no_progress': inner.name}], relevant_ops=1)
+            where = f'{inner.name} ({os.path.basename(inner.filename)}:{inner.lineno})' if inner else '?'
+            raise HarnessError(f'run made no progress for {STUCK_AFTER_S:.0f} s inside the harness: {where}')
+        finally:
+            signal.setitimer(signal.ITIMER_REAL, 0)
+            signal.signal(signal.SIGALRM, old)
+    return wrapper
+
+
 class Engine:
     """Interface every engine implements."""
     name = 'engine'
